@@ -213,7 +213,9 @@ func runQuota(c Case, choose func(int, []string) int) qres {
 		cfg.MaxActiveCodesPerClient = q
 		countKey = fmt.Sprintf("tunnox:index:conncode:target:%d", quotaTarget)
 		if gran == "index" {
-			sel = func(k string) bool { return strings.HasPrefix(k, "tunnox:index:conncode:") || strings.HasPrefix(k, "tunnox:runtime:conncode:id:") }
+			sel = func(k string) bool {
+				return strings.HasPrefix(k, "tunnox:index:conncode:") || strings.HasPrefix(k, "tunnox:runtime:conncode:id:")
+			}
 		}
 	} else {
 		cfg.MaxActiveMappingsPerClient = q
